@@ -1,4 +1,60 @@
+(* C13 -- Reset functions always produce well-formed initial states.
+   wf_check p s (Model/Check.v) is the statement of the property for an outcome s of the reset function with parameters p:
+   requested shape, unbroken wall boundary, agent inside, empty-handed, on a non-blocking cell that is not an exit, moving
+   obstacle or telepod, and the advertised inventory.  tree_ok p = Some true  means: EVERY leaf of the choice tree (every
+   resolution of every random choice numpy can make) is such a state or ValueError.
+   Shipped parameter sets come from Gen/Configs.v, regenerated from the YAML files (with numpy's linspace splits) on every run. *)
 From Coq Require Import ZArith List Bool.
-From GV.Model Require Import Reset.
-Theorem C13_placeholder : True.
-Proof. exact I. Qed.
+From GV.Gen Require Import Configs.
+From GV.Model Require Import Check.
+From GV.Lemmas Require Import RandL C13L.
+Import ListNotations.
+Open Scope Z_scope.
+
+(* ---- parameter combinations that cannot be honoured raise ValueError, whatever the randomness (all shapes) ---- *)
+Theorem C13_empty_rejects : forall h w ra re own, h < 4 \/ w < 4 -> reset_empty h w ra re own = Raise ValueError.
+Proof. exact empty_rejects. Qed.
+Theorem C13_keydoor_rejects : forall h w own, h < 3 \/ w < 5 \/ (h = 3 /\ w = 5) \/ h < 4 -> reset_keydoor h w own = Raise ValueError.
+Proof. exact keydoor_rejects. Qed.
+Theorem C13_crossing_rejects : forall h w n ty own, h < 5 \/ h mod 2 = 0 \/ w < 5 \/ w mod 2 = 0 \/ n <= 0 -> reset_crossing h w n ty own = Raise ValueError.
+Proof. exact crossing_rejects. Qed.
+Theorem C13_teleport_rejects : forall h w own, h < 4 \/ w < 4 -> reset_teleport h w own = Raise ValueError.
+Proof. exact teleport_rejects. Qed.
+Theorem C13_dynamic_obstacles_rejects : forall h w n ra own, h < 4 \/ w < 4 -> reset_dynamic_obstacles h w n ra own = Raise ValueError.
+Proof. exact dynamic_obstacles_rejects. Qed.
+Theorem C13_memory_rejects : forall h w cs own, h < 5 \/ w < 5 \/ w mod 2 = 0 \/ In 0 cs \/ Z.of_nat (length cs) < 2 -> reset_memory h w cs own = Raise ValueError.
+Proof. exact memory_rejects. Qed.
+Theorem C13_memory_rooms_rejects : forall h w ys xs cs nb ne own, In 0 cs \/ Z.of_nat (length cs) < 2 \/ nb < 1 \/ ne < 2 ->
+  reset_memory_rooms h w ys xs cs nb ne own = Raise ValueError.
+Proof. exact memory_rooms_rejects. Qed.
+Theorem C13_rooms_rejects : forall h w ys xs own, nodupb ys = false \/ nodupb xs = false -> reset_rooms h w ys xs own = Raise ValueError.
+Proof. exact rooms_rejects. Qed.
+(* no reset function ever raises anything but ValueError through its random draws: a draw with an empty range is a ValueError *)
+Theorem C13_draws_raise_only_ValueError : forall g n lo hi k x,
+  (Leaf (rchoice g n) (Err x) -> x = ValueError) /\ (Leaf (rints g lo hi) (Err x) -> x = ValueError) /\ (Leaf (rsample g n k) (Err x) -> x = ValueError).
+Proof. exact draws_only_value_error. Qed.
+
+(* ---- complete outcome trees: every shipped parameter set whose tree is small enough for the kernel, and small shapes of
+        every function (bound = the listed parameter sets) ---- *)
+Definition shipped_enumerable : list rparams :=
+  [cfg_gv_crossing_5x5_reset; cfg_gv_crossing_7x7_reset; cfg_gv_dynamic_obstacles_5x5_reset; cfg_gv_dynamic_obstacles_7x7_reset;
+   cfg_gv_empty_4x4_reset; cfg_gv_empty_8x8_reset; cfg_gv_keydoor_5x5_reset; cfg_gv_keydoor_7x7_reset;
+   cfg_gv_memory_5x5_reset; cfg_gv_memory_9x9_reset; cfg_gv_teleport_5x5_reset; cfg_gv_teleport_7x7_reset; cfg_gv_four_rooms_7x7_reset].
+Theorem C13_shipped_trees_wf : forallb (fun p => match tree_ok p with Some true => true | _ => false end) shipped_enumerable = true.
+Proof. vm_compute. reflexivity. Qed.
+Definition small_params : list rparams :=
+  [PEmpty 4 4 false true; PEmpty 4 4 true true; PEmpty 4 5 true true; PEmpty 5 4 true false; PEmpty 6 6 true true; PEmpty 3 9 true true; PEmpty 1 1 false false;
+   PDynamicObstacles 4 4 0 false; PDynamicObstacles 4 4 2 false; PDynamicObstacles 4 4 3 false; PDynamicObstacles 4 5 3 true; PDynamicObstacles 5 5 2 true;
+   PKeydoor 3 5; PKeydoor 3 6; PKeydoor 4 5; PKeydoor 4 6; PKeydoor 5 6; PKeydoor 6 5;
+   PCrossing 5 5 1 3; PCrossing 5 5 2 3; PCrossing 5 5 3 3; PCrossing 5 7 2 7; PCrossing 7 5 3 3; PCrossing 5 5 0 3; PCrossing 6 5 1 3;
+   PTeleport 4 4; PTeleport 4 5; PTeleport 5 5; PTeleport 3 4;
+   PMemory 5 5 [1; 2]; PMemory 5 5 [1; 2; 3; 4]; PMemory 6 7 [2; 4]; PMemory 5 5 [1]; PMemory 5 5 [0; 1; 2]; PMemory 5 6 [1; 2]; PMemory 4 5 [1; 2];
+   PRooms 5 5 [0; 2; 4] [0; 2; 4]; PRooms 4 5 [0; 3] [0; 2; 4]; PRooms 5 5 [0; 4] [0; 4]; PRooms 5 5 [0; 1; 4] [0; 2; 4]; PRooms 3 3 [0; 0; 2] [0; 1; 2];
+   PMemoryRooms 5 5 [0; 4] [0; 4] [1; 2] 1 2; PMemoryRooms 4 5 [0; 3] [0; 4] [1; 2; 3] 1 2; PMemoryRooms 5 5 [0; 4] [0; 4] [1; 2] 1 3;
+   PMemoryRooms 5 5 [0; 4] [0; 4] [1; 2] 0 2; PMemoryRooms 4 4 [0; 3] [0; 3] [1; 2] 2 2].
+Theorem C13_small_trees_wf : forallb (fun p => match tree_ok p with Some true => true | _ => false end) small_params = true.
+Proof. vm_compute. reflexivity. Qed.
+(* the defect repaired in 44cdde1 stays repaired: with a fixed agent the exit is never drawn on the agent's cell *)
+Example C13_example_exit_not_under_agent :
+  tree_ok (PEmpty 4 4 false true) = Some true /\ tree_size (PEmpty 4 4 false true) = Some 3.
+Proof. split; vm_compute; reflexivity. Qed.
